@@ -579,7 +579,7 @@ func (c *converter) createTCPService(port gatewayv1.PortNumber, backend *hatypes
 		c.logger.Warn("skipping redeclared TCPService '%s'", hostname)
 		return nil
 	}
-	c.tracker.TrackNames(convtypes.ResourceHAHostname, hostname, convtypes.ResourceGateway, "gw")
+	c.tracker.TrackNames(convtypes.ResourceHATCPService, hostname, convtypes.ResourceGateway, "gw")
 	tcphost.Backend = backend.BackendID()
 	pathLink := hatypes.CreateHostPathLink(hostname, "/", hatypes.MatchExact)
 	return []*hatypes.PathLink{pathLink}
